@@ -8,3 +8,7 @@ Theorem C04_chord : C04_chord_stmt.                Proof. exact Proofs.C04.C04_c
 Theorem C04_threshold : C04_threshold_stmt.        Proof. exact Proofs.FloatC04.C04_threshold_float. Qed.
 Theorem C04_closed : C04_closed_stmt.              Proof. exact (Proofs.C04.C04_closed_from C04_threshold). Qed.
 Theorem C04_track : C04_track_stmt.                Proof. exact (Proofs.C04.C04_track_from C04_threshold). Qed.
+
+(** Chart level: every track of every successfully parsed chart (through [from_file]). *)
+From CP Require Import Spec.ChartNotes Proofs.ChartNotes.
+Theorem C04_chart : C04_chart_stmt.  Proof. exact Proofs.ChartNotes.C04_chart. Qed.
